@@ -6,6 +6,7 @@ import (
 	"fmt"
 	"io"
 	"math/rand"
+	"strings"
 	"time"
 
 	smtp "github.com/emersion/go-smtp"
@@ -22,6 +23,10 @@ type C01Case struct {
 	Cuts   []int  `json:"cuts"` // segment boundaries inside Stream
 	Buf    int    `json:"buf"`  // backend read size
 	Limit  int64  `json:"limit"`
+	// LineMax: Server.MaxLineLength (0: default 2000). Slow: ReadTimeout 30 min, WriteTimeout 10 s and a peer that
+	// pauses 40 s (virtual) before every segment - slower than the write timeout, faster than the read timeout.
+	LineMax int  `json:"line_max,omitempty"`
+	Slow    bool `json:"slow,omitempty"`
 }
 
 type segReader struct {
@@ -98,7 +103,11 @@ func evalC01(c C01Case) (f *h.Finding) {
 		for _, k := range c.Cuts {
 			cuts = append(cuts, len(c01Prologue)+k)
 		}
-		o := h.RunS(h.Config{MaxMessageBytes: c.Limit}, be, cutSegs(full, cuts), h.TermEOF)
+		cfg := h.Config{MaxMessageBytes: c.Limit, MaxLineLength: c.LineMax}
+		if c.Slow {
+			cfg.ReadTO, cfg.WriteTO, cfg.PeerPause = 30*time.Minute, 10*time.Second, true
+		}
+		o := h.RunS(cfg, be, cutSegs(full, cuts), h.TermEOF)
 		if f := o.Sanity("c01", fmt.Sprintf("stream %q", c.Stream)); f != nil {
 			return f
 		}
@@ -126,6 +135,14 @@ func evalC01(c C01Case) (f *h.Finding) {
 }
 
 func init() { h.RegisterReplayer("c01", evalC01) }
+
+func perOctetCuts(n int) []int {
+	var c []int
+	for i := 1; i < n; i++ {
+		c = append(c, i)
+	}
+	return c
+}
 
 var c01Alphabet = []byte{'.', '\r', '\n', 'a'}
 
@@ -187,7 +204,7 @@ func C01(tier string) int {
 		limits = []int64{0, 1 << 20}
 		allSegUpTo = 7
 	}
-	run.Rule = fmt.Sprintf("every octet stream body+CRLF.CRLF+tail and .CRLF+tail with body over the class alphabet {'.',CR,LF,'a'} of length<=%d (reader seam) / <=%d (full server path), each x segmentations {one segment, one octet per segment, every 2-split%s} x backend read sizes %v x size limit {none, exactly the message size (bodies <= 8)}; distinct by construction (enumeration), non-trivial = body contains '.', CR or LF. Oracle: ref.Unstuff. Random 256-octet streams are a labelled supplement (counters.random_supplement) and not part of 'exhaustive'.",
+	run.Rule = fmt.Sprintf("every octet stream body+CRLF.CRLF+tail and .CRLF+tail with body over the class alphabet {'.',CR,LF,'a'} of length<=%d (reader seam) / <=%d (full server path), each x segmentations {one segment, one octet per segment, every 2-split%s} x backend read sizes %v x size limit {none, exactly the message size (bodies <= 8)}; distinct by construction (enumeration), non-trivial = body contains '.', CR or LF. Plus (full server path) lines of exactly the maximal permitted length, 1 and 5 less, behind/in front of other lines with the segment boundary at EVERY position (MaxLineLength 32; default 2000 with the line's CR at octets 4094..4098 of the connection, i.e. around the server's read-buffer boundary), and all bodies <=4 from a SLOW peer (40 s virtual pause before every segment, WriteTimeout 10 s, ReadTimeout 30 min; the scripted connection honours the armed read deadline). Oracle: ref.Unstuff. Random 256-octet streams are a labelled supplement (counters.random_supplement) and not part of 'exhaustive'.",
 		L, LS, map[bool]string{true: fmt.Sprintf(", all 2^(n-1) segmentations for streams of <=%d+5 octets", allSegUpTo), false: ""}[allSegUpTo > 0], bufs)
 	run.Assumptions = []string{
 		"the reader branches only on '.', CR, LF vs. any other octet, so one representative 'a' stands for the 253 other octets (the random supplement exercises all 256 values)",
@@ -295,6 +312,78 @@ func C01(tier string) int {
 	doStream("reader", lead, 0, bufs, true, out)
 	doStream("server", lead, 0, sbufs, true, out)
 	run.Outcomes(out)
+
+	// Lines of exactly the maximal permitted length (and a little less) in front of, between and behind other
+	// lines, the segment boundary at every position (in particular between the CR and the LF of the long line):
+	// a small configured limit, and the default limit with the line's CR as the last octet of the server's
+	// 4096-octet read buffer.
+	var lcases []C01Case
+	const lm = 32
+	for _, pre := range []string{"", ".", "a\r\n", "\n", "..\r\n"} {
+		for _, k := range []int{0, 1, 5} {
+			for _, suf := range []string{"", "b\r\n", ".x\r\n"} {
+				body := pre + strings.Repeat("a", lm-2-k) + "\r\n" + suf
+				if pre == "." {
+					body = pre + strings.Repeat("a", lm-3-k) + "\r\n" + suf
+				}
+				stream := mk([]byte(strings.TrimSuffix(body, "\r\n")))
+				if !strings.HasSuffix(body, "\r\n") {
+					stream = mk([]byte(body))
+				}
+				lcases = append(lcases, C01Case{Seam: "server", Stream: stream, Buf: 4096, LineMax: lm}, C01Case{Seam: "server", Stream: stream, Buf: 3, LineMax: lm, Cuts: perOctetCuts(len(stream))})
+				for cut := 1; cut < len(stream); cut++ {
+					lcases = append(lcases, C01Case{Seam: "server", Stream: stream, Cuts: []int{cut}, Buf: 4096, LineMax: lm})
+				}
+			}
+		}
+	}
+	for _, k := range []int{0, 1} {
+		for shift := -2; shift <= 2; shift++ {
+			// filler lines so that the CR of the 1998-character line is octet number 4096+shift of the connection
+			fill := 4095 + shift - len(c01Prologue) - (1998 - k)
+			var body []byte
+			for fill > 0 {
+				n := fill
+				if n > 80 {
+					n = 80
+				}
+				if fill-n == 1 {
+					n--
+				}
+				if n < 2 {
+					break
+				}
+				body = append(body, bytes.Repeat([]byte("f"), n-2)...)
+				body = append(body, '\r', '\n')
+				fill -= n
+			}
+			body = append(body, bytes.Repeat([]byte("a"), 1998-k)...)
+			stream := mk(body)
+			lcases = append(lcases, C01Case{Seam: "server", Stream: stream, Buf: 4096}, C01Case{Seam: "server", Stream: stream, Buf: 7})
+			for d := -3; d <= 3; d++ {
+				lcases = append(lcases, C01Case{Seam: "server", Stream: stream, Cuts: []int{len(body) + d}, Buf: 4096})
+			}
+		}
+	}
+	// A slow peer: every 2-split and the per-octet segmentation of all short bodies with 40 s (virtual) between the
+	// segments, WriteTimeout 10 s, ReadTimeout 30 min. The message must arrive as with a fast peer.
+	enumStrings(c01Alphabet, 4, func(b []byte) {
+		stream := mk(b)
+		lcases = append(lcases, C01Case{Seam: "server", Stream: stream, Buf: 4096, Slow: true, Cuts: perOctetCuts(len(stream))})
+		for cut := 1; cut < len(b)+5; cut++ {
+			lcases = append(lcases, C01Case{Seam: "server", Stream: stream, Cuts: []int{cut}, Buf: 4096, Slow: true})
+		}
+	})
+	run.Counter("max_length_line_and_slow_peer_cases", int64(len(lcases)))
+	h.ParallelFor(len(lcases), func(i int) {
+		c := lcases[i]
+		f := evalC01(c)
+		run.Eval(true)
+		if f != nil {
+			c.Show = fmt.Sprintf("%.80q", c.Stream)
+			run.Violate("c01", c, f, func() *h.Finding { return evalC01(c) })
+		}
+	})
 
 	// Labelled supplement: seeded random streams over all 256 octets.
 	rng := rand.New(rand.NewSource(run.Seed))
